@@ -13,7 +13,7 @@ wt, prop, sid = sys.argv[1], sys.argv[2], sys.argv[3]
 env = dict(os.environ, GOFLAGS="-mod=mod", GOPROXY="off")
 env.pop("GOSUMDB", None); env.pop("GOTOOLCHAIN", None)
 def sh(cmd, cwd, timeout=900, e=env):
-    p = subprocess.run(cmd, shell=True, cwd=cwd, env=e, capture_output=True, text=True, timeout=timeout)
+    p = subprocess.run(cmd, shell=True, cwd=cwd, env=e, capture_output=True, text=True, errors="replace", timeout=timeout)
     return p.returncode, (p.stdout + p.stderr)
 vm = f"/tmp/vm-{sid}"
 sh(f"git -C /repo worktree remove --force {vm}", "/")
